@@ -34,6 +34,8 @@ Line-protocol driver for the C20 model (`lake build c20drv`). All numbers are de
        calls: lt(ident,txCount) bn(n,ident,txCount) fetch(h,h,..)|fetchfail, joined by ' ; '; #pub: feed sends, joined by ' | '
   newchain <n,n,..|->                                -> err | ok <length> <numbers oldest first>   (preconfirmed.NewChain)
   emptydiff <num> <hash|->                           -> err | <diff>   (makeStateDiffForEmptyBlock; hash = BlockHeaderHashByNumber(num-10))
+  pcc <height|-> <head2|-> <hashOk>                  -> err:height | err:header | err:blockhash | <view as snap> | fallback <n>   (PreConfirmedChain read by read)
+  runloop <iz> <n|o> <n|o>*                          -> off | <w|t>*   (Poller.Run: the pre-genesis guard around the ticks)
   ppre <height> <highest|->                          -> notip | tip(ident,txCount)   (the tick up to the latest poll, which fails)
 
   `apply … -> changed <entry> cm=<nil|caller|shared|fresh>`: which OBJECT the affected entry's NewClasses map is (ClassAlias.lean);
@@ -41,7 +43,7 @@ Line-protocol driver for the C20 model (`lake build c20drv`). All numbers are de
 
   classes: `-` or `h:d,h:d`     txs: `-` or `tx;tx`, tx = hash/tag/bad/rhash/rtag/events/diff/kind/reverted
   diff: `-` or sections joined by `+`: s=a:k:v,..  n=a:v,..  d=a:c  r=a:c  c1=h:c  m=h:c  c0=h,h
-  table: sections joined by `+`: ch=a:c  no=a:n  st=a:k:v  cl=h:d  ca=h:c  c2=h:c  lu=a:k:n  (absent = not found)
+  table: sections joined by `+`: ch=a:c  no=a:n  st=a:k:v  cl=h:d  ca=h:c  c2=h:c  lu=a:k:n  at=h:n (Class(h).At)  (absent = not found)
   `state` appends ` lu[a:k=<as implemented>/<specified>,..]` (ContractStorageLastUpdatedBlock)
 -/
 open Juno.Proto Juno.C20
@@ -68,19 +70,20 @@ def triples? (s : String) : Option (List ((Nat × Nat) × Nat)) :=
     | [a, b, c] => do pure (((← nat? a), (← nat? b)), (← nat? c))
     | _ => none
 
-/-- wire order: later entries of a section overwrite earlier ones (Go builds the map by
-assignment in slice order), so the list is reversed into shadowing order -/
-def parseDiff? (s : String) : Option Diff :=
-  (splitNonEmpty s "+").foldlM (init := Diff.empty) fun d sec =>
+/-- the wire form of a state diff (sections in wire order) adapted by the model's `adaptStateDiff`:
+later entries of a section overwrite earlier ones, as Go builds the maps by assignment in slice order -/
+def parseDiff? (s : String) : Option Diff := do
+  let w ← (splitNonEmpty s "+").foldlM (init := ({} : WireDiff)) fun d sec =>
     match sec.splitOn "=" with
-    | ["s", v] => do pure { d with storage := (← triples? v).reverse }
-    | ["n", v] => do pure { d with nonces := (← pairs? v).reverse }
-    | ["d", v] => do pure { d with deployed := (← pairs? v).reverse }
-    | ["r", v] => do pure { d with replaced := (← pairs? v).reverse }
-    | ["c1", v] => do pure { d with declaredV1 := (← pairs? v).reverse }
-    | ["m", v] => do pure { d with migrated := (← pairs? v).reverse }
-    | ["c0", v] => do pure { d with declaredV0 := (← natList? v ",") }
+    | ["s", v] => do pure { d with storage := (← triples? v) }
+    | ["n", v] => do pure { d with nonces := (← pairs? v) }
+    | ["d", v] => do pure { d with deployed := (← pairs? v) }
+    | ["r", v] => do pure { d with replaced := (← pairs? v) }
+    | ["c1", v] => do pure { d with declared := (← pairs? v) }
+    | ["m", v] => do pure { d with migrated := (← pairs? v) }
+    | ["c0", v] => do pure { d with oldDeclared := (← natList? v ",") }
     | _ => none
+  pure (adaptStateDiff w)
 
 def parseTx? (s : String) : Option WireTx :=
   match s.splitOn "/" with
@@ -132,6 +135,7 @@ structure Tables where
   ca : AMap Nat Nat := []
   c2 : AMap Nat Nat := []
   lu : AMap (Nat × Nat) Nat := []
+  clsAt : AMap Nat Nat := []
 
 def parseTables? (s : String) : Option Tables :=
   (splitNonEmpty s "+").foldlM (init := ({} : Tables)) fun t sec =>
@@ -143,12 +147,13 @@ def parseTables? (s : String) : Option Tables :=
     | ["ca", v] => do pure { t with ca := (← pairs? v) }
     | ["c2", v] => do pure { t with c2 := (← pairs? v) }
     | ["lu", v] => do pure { t with lu := (← triples? v) }
+    | ["at", v] => do pure { t with clsAt := (← pairs? v) }
     | _ => none
 
 def Tables.toBase (t : Tables) : Base :=
   { classHash := AMap.get t.ch, nonce := AMap.get t.no, storage := fun a k => AMap.get t.st (a, k),
     cls := AMap.get t.cl, casm := AMap.get t.ca, casmV2 := AMap.get t.c2,
-    lastUpd := fun a k => AMap.get t.lu (a, k) }
+    lastUpd := fun a k => AMap.get t.lu (a, k), clsAt := AMap.get t.clsAt }
 
 structure DState where
   store : Store := none
@@ -173,6 +178,11 @@ def showReads (s : DState) (p : PState) : String :=
   let c2 := s.chs.map fun h => s!"{h}={showOpt (p.casmV2 h)}"
   s!"ch[{",".intercalate ch}] no[{",".intercalate no}] st[{",".intercalate st}] " ++
   s!"cl[{",".intercalate cl}] ca[{",".intercalate ca}] c2[{",".intercalate c2}]"
+
+/-- the remaining accessors of `pending.State`: `Class(h).At` over the universe and the three trie getters -/
+def showExtra (s : DState) (p : PState) : String :=
+  let ats := s.chs.map fun h => s!"{h}={showOpt (p.clsAt h)}"
+  s!"x[at:{",".intercalate ats};tries={if p.trieSupported then "ok" else "unsup"}]"
 
 /-- `ContractStorageLastUpdatedBlock` over the universe: `as-implemented/specified` per slot -/
 def showLastUpd (s : DState) (p : PState) (es : List PreConf) : String :=
@@ -428,6 +438,31 @@ def step (s : DState) (line : String) : DState × String :=
       let v := readerView ht (nat? cached) s.store {}
       (s, if (snapshotFor s.store (ht + 1)).length > 0 then showView v else s!"fallback {ht + 1}")
     | none => (s, "bad-op")
+  | ["pcc", height, head2, hashOk] =>
+    -- Synchronizer.PreConfirmedChain read by read: Height() = height (`-`: error), HeadsHeader().Number = head2
+    -- (`-`: error), BlockHeaderHashByNumber succeeds iff hashOk = 1
+    let v := preConfirmedChain (optNat height) s.store (optNat head2) (fun _ => if hashOk == "1" then some 0 else none)
+    (s, match v with
+        | .error .height => "err:height"
+        | .error .header => "err:header"
+        | .error .blockHash => "err:blockhash"
+        | .ok r =>
+          match optNat height with
+          | some ht => if (snapshotFor s.store (ht + 1)).length > 0 then showView r else s!"fallback {r.tip}"
+          | none => "bad-op")
+  | ["runloop", iz, g0, guards] =>
+    -- Poller.Run around the ticks: interval == 0 (iz = 1)? first guard answer, then one letter per ticker
+    -- firing (n = Height() answers ErrKeyNotFound, o = anything else); answer: per firing `w` (nothing
+    -- happens: still in the guard loop) or `t` (a tick runs), or `off`
+    let g (c : Char) : Guard := if c == 'n' then .notFound else .other
+    if iz == "1" then (s, "off")
+    else
+      let idle : TickIn := { height := none, highest := none, src := { latest := none, byNumber := fun _ => none, classDef := fun _ => none } }
+      let (_, out) := guards.toList.foldl (fun (acc : RunSt × List Char) c =>
+          let ticked := acc.1.polling
+          ((runEvent acc.1 { guard := g c, env := idle }).1, acc.2 ++ [if ticked then 't' else 'w']))
+        (({ polling := g (g0.toList.headD 'o') != .notFound, store := none } : RunSt), [])
+      (s, if out.isEmpty then "-" else String.ofList out)
   | ["unbase", n] =>
     match nat? n with
     | some n => ({ s with bases := s.bases.filter (fun kv => kv.1 != n) }, "ok")
@@ -445,7 +480,7 @@ def step (s : DState) (line : String) : DState × String :=
             if !aliasAgrees (es.map (·.diff)) p.diff then "ALIAS-MISMATCH"
             else match stateClassOrigin s v blk p with
               | none => "CALIAS-MISMATCH"
-              | some tok => showReads s p ++ " cm=" ++ tok ++ " " ++ showLastUpd s p es)
+              | some tok => showReads s p ++ " cm=" ++ tok ++ " " ++ showExtra s p ++ " " ++ showLastUpd s p es)
     | _, _ => (s, "bad-op")
   | ["statebi", b, blk, idx] =>
     match nat? b, nat? blk, nat? idx with
@@ -458,7 +493,7 @@ def step (s : DState) (line : String) : DState × String :=
           | .error .noBase => "nobase"
           | .ok p => match stateClassOrigin s v blk p with
             | none => "CALIAS-MISMATCH"
-            | some tok => showReads s p ++ " cm=" ++ tok)
+            | some tok => showReads s p ++ " cm=" ++ tok ++ " " ++ showExtra s p)
     | _, _, _ => (s, "bad-op")
   | "ptick" :: height :: highest :: cfails :: cdefs :: lnum :: lk :: lident :: lver :: ltxs :: rest =>
     match nat? height, natList? cfails ",", pairs? cdefs, nat? lnum, parseUpd? lk lident lver ltxs, parseByNum? rest with
